@@ -397,6 +397,10 @@ func (r *runner) refreshOracle(step int, pre *hist.Facts, retained, nw *hist.Mat
 			}
 		}
 	}
+	// 9. the refresh interrupted at every crash point leaves the previous material intact and usable
+	if len(r.ln.epochs) > 0 && !(sc.T == 0) {
+		r.interruptedRefresh(step, r.ln.epochs[len(r.ln.epochs)-1], pre)
+	}
 	// 8. (observation) the same with the RETAINED live object instead of a restored snapshot of the previous epoch
 	S := historySigners(sc, ids)
 	for _, stale := range S {
@@ -407,6 +411,75 @@ func (r *runner) refreshOracle(step int, pre *hist.Facts, retained, nw *hist.Mat
 		o := r.run(nm.SignSpec(S, msg, map[party.ID]*hist.Mat{stale: retained}), step, fmt.Sprintf("sign-retained-%s-%s", names(S), stale))
 		if len(o.Results) > 0 {
 			r.observe("retained-object-signs|"+sc.Proto, fmt.Sprintf("%s history=[%s]: signer %s uses the configuration OBJECT it handed to the refresh (never touched by the caller), the others the new results: %s", sc, strings.Join(r.k.History, ","), stale, holders(o, S, r.ln.pub, msg)))
+		}
+	}
+}
+
+// interruptedRefresh: the network dies after k deliveries of the refresh session, for EVERY k (every
+// crash point of the session).  The session then cannot complete for someone, and the parties fall
+// back on the configurations they hold.  Those must be exactly what they were before the session
+// started (a refresh that has not returned a result must not have touched the material it was given:
+// otherwise a single lost message loses the key), and a signing session on them must still succeed.
+func (r *runner) interruptedRefresh(step int, preSnap *hist.Snap, pre *hist.Facts) {
+	sc := r.k.Scenario
+	msg := hist.Msg("c08-interrupted")
+	// length of the full session
+	full, err := preSnap.Restore()
+	if err != nil {
+		return
+	}
+	if ff, err := full.Facts(); err != nil || len(hist.Diff(pre, ff)) > 0 {
+		r.observe("interrupted-refresh-skipped", "the last recorded epoch is not the material this refresh started from")
+		return
+	}
+	net, startErr := sess.Build(full.RefreshSpec(), *vkit.Seed, r.label(step, "refresh-interrupted-full"))
+	if len(startErr) > 0 {
+		return
+	}
+	net.RunFIFO(100000)
+	total := net.Steps
+	signAt := map[int]bool{0: true, total / 2: true, total - 1: true}
+	if sc.Proto != hist.CMP {
+		for k := 0; k < total; k++ {
+			signAt[k] = true
+		}
+	}
+	for k := 0; k < total; k++ {
+		m, err := preSnap.Restore()
+		if err != nil {
+			return
+		}
+		r.stats["sessions"]++
+		r.stats["refresh_crash_points"]++
+		net, startErr := sess.Build(m.RefreshSpec(), *vkit.Seed, r.label(step, "refresh-interrupted"))
+		if len(startErr) > 0 {
+			return
+		}
+		net.RunFIFO(k)
+		if id, pm, fr := net.AnyPanic(); id != "" {
+			r.panicked("refresh", fmt.Sprintf("%s: %s in %s", id, pm, fr))
+			return
+		}
+		after, err := m.Facts()
+		if err != nil {
+			r.violate("interrupted-refresh:material-unreadable", fmt.Sprintf("refresh cut after %d of %d deliveries: the configurations handed to it can no longer be read: %v", k, total, err))
+			return
+		}
+		if d := hist.Diff(pre, after); len(d) > 0 {
+			cons := "still satisfy"
+			if es := m.Consistency(); len(es) > 0 {
+				cons = "no longer satisfy (" + hist.Clause(es[0]) + ")"
+			}
+			r.violate("interrupted-refresh:material-changed:"+strings.Join(d, "+"), fmt.Sprintf("refresh cut after %d of %d deliveries (no party holds a result for it yet or some never will): the configuration objects the parties fall back on changed in {%s} and %s the consistency conditions", k, total, strings.Join(d, ", "), cons))
+			return
+		}
+		if signAt[k] {
+			S := historySigners(sc, m.IDs)
+			o := r.run(m.SignSpec(S, msg, nil), step, fmt.Sprintf("sign-after-cut-%d", k))
+			if err := hist.CheckSigned(o, S, r.ln.pub, msg); err != nil {
+				r.violate("interrupted-refresh:old-material-cannot-sign", fmt.Sprintf("refresh cut after %d of %d deliveries; signing with the configurations the parties still hold fails: %v — %s", k, total, err, hist.Describe(o)))
+				return
+			}
 		}
 	}
 }
